@@ -10,6 +10,7 @@ import CoapLite.Lemmas.DownloadFull
 import CoapLite.Lemmas.BlockFitsRange
 import CoapLite.Lemmas.BlockSession
 import CoapLite.Lemmas.BlockClamp
+import CoapLite.Lemmas.DownloadHistory
 import CoapLite.Lemmas.Shape.Block
 import CoapLite.Lemmas.Shape.BlockValue
 import CoapLite.Lemmas.Shape.Request
@@ -239,6 +240,37 @@ theorem after_release_passes (req : Request) (st : BlockState)
 /-! non-vacuity -/
 example : chunkAt [1, 2, 3, 4, 5] 2 2 = some ([5], false) ∧ chunkAt [1, 2, 3, 4, 5] 2 1 = some ([3, 4], true) ∧
     chunkAt [] 16 0 = some ([], false) ∧ chunkAt [1] 16 1 = none := by decide
+
+/-- THE WHOLE DOWNLOAD AT THE LEVEL OF THE HANDLER, inside arbitrary traffic. Fresh handler, ANY monotone
+history `evs`. The calls for key `κ`, at most `ttl` apart, are: any earlier calls `pre`, then `e0` =
+`intercept_response` with the application's reply `resp` (no Block2 option of its own; block 0 = `rb2` is
+what the negotiation gives in the state `pre` left behind; the body is longer than one block), then the
+request-side follow-ups `fus` for blocks 1, 2, … up to the last block, at the negotiated size. Observed for
+`e0` and the follow-ups: every call is answered by the handler (`ok true` – the application produced the
+body once), and the reply payloads, concatenated, are byte for byte the body – whatever other transfers do
+in between (`transfer_in_any_history` + `download_from_reply`, `Lemmas/DownloadHistory.lean`). -/
+theorem download_in_any_history (M ttl : Nat) (evs : List Ev) (κ : Key) (hm : Mono 0 evs)
+    (hsp : Spaced ttl (evs.filter (fun e => e.key = κ)))
+    (pre : List Ev) (e0 : Ev) (fus : List Ev) (reqs : List Request)
+    (hκ : evs.filter (fun e => e.key = κ) = pre ++ e0 :: fus)
+    (h0 : e0.isResp = true) (hfr : ∀ e ∈ fus, e.isResp = false) (hreqs : fus.map (·.req) = reqs)
+    (resp : Packet) (size : Nat) (rb2 : BlockValue)
+    (hr : e0.req.response = some resp) (hno : resp.getOption block2Num = none)
+    (hs : resp.options.Sorted) (hk : ∀ kv ∈ resp.options, kv.1 ≤ 65535)
+    (hsz : computeMessageSize resp = .ok size)
+    (hn : negotiate (finalState M BlockState.default pre).lastBlock2 (size + tokenReserve resp)
+            resp.payload.length M = .ok (some rb2))
+    (hbv : BvOk rb2) (hz : rb2.num = 0) (hmore : rb2.size < resp.payload.length)
+    (hfu : ∀ i (h : i < reqs.length), IsFollowUp M reqs[i] (1 + i) rb2.szx)
+    (hne : reqs ≠ [])
+    (hlast : (1 + reqs.length - 1) * 2 ^ (rb2.szx + 4) < resp.payload.length)
+    (hcover : resp.payload.length ≤ (1 + reqs.length) * 2 ^ (rb2.szx + 4)) :
+    let obs := ((runEvs (Handler.new M ttl) evs).filter (fun o => o.1 = κ)).map (·.2)
+    let tail := obs.drop pre.length
+    tail.length = 1 + fus.length ∧ (∀ o ∈ tail, o.2 = .ok true) ∧
+    tail.flatMap (fun o => (o.1.response.map (·.payload)).getD []) = resp.payload :=
+  Block.download_in_any_history M ttl evs κ hm hsp pre e0 fus reqs hκ h0 hfr hreqs resp size rb2 hr hno hs hk
+    hsz hn hbv hz hmore hfu hne hlast hcover
 
 /-! ### tie to the source: the state the model carries is the state the code carries
 
